@@ -224,6 +224,25 @@ def random_nest(rng, depth_max=4):
             secs = rng.sample(range(nsec), k)
             if rng.random() < 0.3:
                 secs.sort()
+            elif nsec >= 5 and rng.random() < 0.35:
+                # a run a..a+m-1 whose end points are in place and whose interior is scrambled, between two
+                # other sectors (S69: a multi-sector read that trusts the end points of a run)
+                m = rng.randint(3, min(6, nsec - 2))
+                a = rng.randint(0, nsec - m)
+                inner = list(range(a + 1, a + m - 1))
+                if len(inner) > 1:
+                    while inner == sorted(inner):
+                        rng.shuffle(inner)
+                    mid = [a] + inner + [a + m - 1]
+                else:
+                    # m == 3: put a sector from outside the run between the end points
+                    others = [x for x in range(nsec) if x not in (a, a + 1, a + 2)]
+                    mid = [a, rng.choice(others), a + 2] if others else [a, a + 1, a + 2]
+                rest = [x for x in range(nsec) if x not in mid]
+                rng.shuffle(rest)
+                head, tail = rest[:1], rest[1:2]
+                secs = head + mid + tail
+                k = len(secs)
             specs.append(("chain", cur, L, tuple(secs)))
             curlen = L * k
         else:
@@ -250,7 +269,7 @@ def random_ops(rng, k, length, count, w=None):
                 off = (off // w) * w
             ops.append(("seek", k, off, wh))
         else:
-            n = rng.choice([0, 1, 2, 3, 5, 8, 13, length, length + 3, rng.randint(0, length + 2)])
+            n = rng.choice([0, 1, 2, 3, 5, 8, 13, length, length, length + 3, rng.randint(0, length + 2), rng.randint(length // 2, length + 2)])
             if w and rng.random() < 0.8:
                 n = (n // w) * w
             ops.append(("read", k, n))
